@@ -101,3 +101,13 @@ MUTANTS += [
     dict(prop="C06", name="LineString no longer buffered", file=EA, old="    data.LineString.geom_type(),\n", new=""),
     dict(prop="C06", name="area union uses only the first area", file=EA, old="    union = shp1.area + shp2.area - intersection", new="    union = shp1.area + shp1.area - intersection"),
 ]
+MUTANTS += [
+    dict(prop="C04", name="clip mismatch check removed", file="data/clip_evaluations.py", old="        if example.clip.uuid != prediction.clip.uuid:\n            raise ValueError(\"The example and prediction clips do not match.\")\n", new=""),
+    dict(prop="C04", name="duplicate source check removed", file="data/clip_evaluations.py", old="        if len(match_sources) != len(match_sources_set):\n            raise ValueError(\"Multiple matches for the same source.\")\n", new=""),
+    dict(prop="C04", name="targets compared as subset only", file="data/clip_evaluations.py", old="        if match_targets_set != annotation_sound_events:", new="        if not match_targets_set <= annotation_sound_events:"),
+    dict(prop="C04", name="match: or instead of and", file="data/matches.py", old="        if values.get(\"source\") is None and values.get(\"target\") is None:", new="        if values.get(\"source\") is None or values.get(\"target\") is None:"),
+    dict(prop="C04", name="affinity upper bound 10", file="data/matches.py", old="    affinity: float = Field(default=0.0, ge=0.0, le=1.0)", new="    affinity: float = Field(default=0.0, ge=0.0, le=10.0)"),
+    dict(prop="C04", name="predicted tag score lt instead of le", file="data/predicted_tags.py", old="    score: float = Field(default=1, ge=0, le=1)", new="    score: float = Field(default=1, ge=0, lt=1)"),
+    dict(prop="C04", name="clip allows start after end when equal check flipped", file="data/clips.py", old="        if values[\"start_time\"] > values[\"end_time\"]:", new="        if values[\"start_time\"] >= values[\"end_time\"]:"),
+    dict(prop="C04", name="project check uses annotation uuid", file="data/annotation_projects.py", old="            if annotated_clip.clip.uuid not in clip_ids:", new="            if annotated_clip.uuid not in clip_ids:"),
+]
